@@ -114,16 +114,10 @@ def predExpect (d : Nat) (s : List DPt) (q : DPt) : PredExpect :=
   let lRows := relRows s q
   let lTol := adaptiveTol lRows false
   let lEps := luBound lRows
-  let lInt : List (List Int) :=
-    match si with
-    | [] => []
-    | p0 :: rest => (rest ++ [qi]).map (fun p =>
-        let r := (p.zip p0).map (fun (a, b) => a - b)
-        r ++ [sqNorm r])
-  let lDet := det lInt
+  let lDet := liftedDet si qi
   let lReal := Q.scale2 (Q.ofInt lDet) (emin * (d + 2))
   let el := expectedQ lTol lEps lReal
-  let parity : Int := if d % 2 == 0 then -1 else 1
+  let parity : Int := liftedParity d
   let lifted : Option Int :=
     match eo, el with
     | some 0, _ => none
